@@ -6,6 +6,7 @@ both as protobuf Metric messages through convert_response and as direct MetricDe
 """
 import math
 import os
+import threading
 
 from vf import clock, plugins, hostframe, snapcheck
 from vf.rig import Rig, line_trigger
@@ -22,7 +23,7 @@ RULE = ('1-5 metric definitions per tracepoint x 4 types x labels (none, static 
         'least one call expected or a no-processor phase exercised; distinct by canonical case')
 ASSUMPTIONS = ['numeric-looking strings are not used as "non-numeric" values', 'absent help/unit may arrive as None or ""',
                'label values are compared as text']
-REQUIRE = {'runs_with_a_processor_that_adds_a_label': 40, 'calls_compared': 2500, 'hits_checked': 1500, 'no_processor_phases': 60, 'wire_definitions': 300,
+REQUIRE = {'overlapping_hits_checked': 30, 'runs_with_a_processor_that_adds_a_label': 40, 'calls_compared': 2500, 'hits_checked': 1500, 'no_processor_phases': 60, 'wire_definitions': 300,
            'failing_value_exprs': 100, 'label_exprs': 300, 'same_name_definitions': 100,
            'label_sets_kept': 2000}
 T0 = 1_700_000_000_000_000_000
@@ -59,7 +60,8 @@ STATICS = ['fixed', 'eu', 7, True, 1.5, '', 0, False, 0.0]
 
 def plan(tier, seed):
     n = {'quick': 960, 'thorough': 14400}[tier]
-    return split_seeds('m%s' % seed, n, 16, 'metric')
+    return split_seeds('m%s' % seed, n, 16, 'metric') + split_seeds('o%s' % seed, 24 if tier == 'quick' else 240, 4,
+                                                                     'overlap')
 
 
 def rec_eval(expr, frame):
@@ -317,10 +319,82 @@ def _num_eq(a, b):
     return a == b
 
 
+HOST_OVERLAP = '''"""c17 host: two threads at the tracepoint at the same time"""
+import threading
+
+FIRST_IN = threading.Event()
+SECOND_DONE = threading.Event()
+
+
+def held(tag):
+    """Called by a label expression: the first hit stays in here until the second hit is complete."""
+    if tag == "first":
+        FIRST_IN.set()
+        SECOND_DONE.wait(10)
+    return "t-" + tag
+
+
+def leaf(n, label):
+    marker = 0  # @hit
+    return marker
+'''
+
+
+def case_overlap(seed, out, spec, wd):
+    """Two hits of one metric tracepoint overlap: the first is still evaluating its labels while the second one is
+    evaluated and reported on another thread. Each hit reports the labels of its own frame."""
+    from deep.api.tracepoint.tracepoint_config import MetricDefinition, LabelExpression
+    r = Rng('c17o', seed)
+    plugins.reset()
+    path = os.path.join(wd, 'c17overlap_%s.py' % str(seed).replace(':', '_'))
+    with open(path, 'w') as f:
+        f.write(HOST_OVERLAP)
+    base = os.path.basename(path)
+    line = hostframe.markers(path)['hit']
+    mod = hostframe.load(path)
+    labels = [LabelExpression('team', 'core', None), LabelExpression('who', None, 'label'),
+              LabelExpression('ticket', None, 'held(label)')]
+    if r.chance(0.5):
+        labels = [labels[1], labels[0], labels[2]]
+    mdef = MetricDefinition('jobs', r.pick(TYPES), labels, 'n')
+    rig = Rig(custom={}, host_dir=wd, plugins=[plugins.RecMetrics()])
+    rig.install([line_trigger('tp17o', base, line, {'fire_count': '-1', 'fire_period': '0', 'snapshot': 'no_collect'},
+                              [], [mdef])])
+
+    def body():
+        t1 = threading.Thread(target=mod.leaf, args=(3, 'first'), name='c17-first')
+        t1.start()
+        entered = mod.FIRST_IN.wait(10)
+        t2 = threading.Thread(target=mod.leaf, args=(5, 'second'), name='c17-second')
+        t2.start()
+        t2.join(10)
+        mod.SECOND_DONE.set()
+        t1.join(15)
+        return entered and not t1.is_alive() and not t2.is_alive()
+
+    ok, exc = rig.run(body)
+    rig.cleanup()
+    got = sorted(((pl[2], pl[6]) for _, _, nm, cb, pl in plugins.EVENTS if cb == 'metric'), key=lambda t: t[1])
+    want = [({'team': 'core', 'who': 'first', 'ticket': 't-first'}, 3.0),
+            ({'team': 'core', 'who': 'second', 'ticket': 't-second'}, 5.0)]
+    witness = {'reported': got, 'agent_log': [short(x, 160) for x in rig.logs[-2:]]}
+    if exc is not None or not ok:
+        out.inconc('C17 overlap: the two host threads did not run as scheduled (%r)' % (exc,))
+        return
+    if got != want:
+        out.violation('metric:labels-of-another-hit', 'two overlapping hits reported %r, their frames say %r' % (got, want),
+                      witness, replay_spec(spec, seed))
+    out.count('overlapping_hits_checked', 2)
+    out.case({'overlap': seed}, nontrivial=True, sample=witness)
+
+
 def run_shard(spec, out):
     wd = Workdir('c17')
     try:
         for seed in spec_seeds(spec):
+            if spec['kind'] == 'overlap':
+                case_overlap(seed, out, spec, wd.path)
+                continue
             case_metric(seed, out, spec, wd.path)
     finally:
         wd.close()
